@@ -110,7 +110,7 @@ Section EngineProofs.
     - apply triple_ret. auto.
     - assert (Ha : (ba <= s_arr ex)%nat) by (destruct H; [discriminate|assumption]).
       apply triple_get_bind. intros it.
-      destruct (selector_match sch sel it) as [[|]|].
+      destruct (selector_match sch q sel it) as [[|]|].
       + destruct (negb (write_allowed sch it) && remote).
         * apply IH. auto.
         * eapply triple_seq; [apply triple_true_write; exact Ha|].
@@ -183,11 +183,11 @@ Section EngineProofs.
         - apply triple_del_body; assumption.
         - intros result'. apply triple_pure_r. intros Ho'. apply IH; auto. }
       destruct (q_deladdr q).
-      + destruct (match f_sel f with Some s => selector_match sch s it | None => Ok true end) as [addressed|].
+      + destruct (match f_sel f with Some s => selector_match sch q s it | None => Ok true end) as [addressed|].
         * destruct (addressed && negb (write_allowed sch it) && remote); [apply IH; auto | apply Hb].
         * apply triple_ret. simpl. auto.
       + destruct (negb (write_allowed sch it) && remote); [apply IH; auto|].
-        destruct (match f_sel f with Some s => selector_match sch s it | None => Ok true end) as [addressed|].
+        destruct (match f_sel f with Some s => selector_match sch q s it | None => Ok true end) as [addressed|].
         * apply Hb.
         * apply triple_ret. simpl. auto.
   Qed.
@@ -282,7 +282,7 @@ Section EngineProofs.
     - intros [[ex1 ok0]|]; [|apply triple_ret; simpl; auto].
       unfold slice_post. apply triple_pure_r. intros Ho1.
       destruct (filter_data fp) as [f|].
-      + destruct (Nat.eqb (s_len new) 0); [apply triple_ret; simpl; auto|].
+      + destruct (Nat.eqb (s_len new) 0); [destruct (q_emptysel q); apply triple_ret; simpl; auto|].
         apply triple_get_bind. intros n0.
         destruct (f_sel f) as [sel|]; [|apply triple_ret; simpl; auto].
         eapply triple_bind.
@@ -768,6 +768,15 @@ Section RunProofs.
     - exact Ho.
   Qed.
 
+  Lemma Inv_keep s :
+    Inv s ->
+    Inv {| sch := sch s; fam := fam s; fixed := fixed s; qk := qk s; cur := cur s;
+           handed := handed s ++ [(HList nil_slice, [])] |}.
+  Proof.
+    intros [Hwf Hh]. split; [exact Hwf|]. simpl. apply Forall_app. split; [exact Hh|].
+    apply Forall_cons; [|apply Forall_nil]. simpl. split; [apply Hwf | reflexivity].
+  Qed.
+
   (* the monitor's memory agrees with the store *)
   Definition MI (s : st) (mm : mst) : Prop :=
     m_n mm = length (handed s) /\ m_store mm = sval (cur s).
@@ -780,7 +789,7 @@ Section RunProofs.
     simpl in Hrep. apply andb_true_iff in Hrep. destruct Hrep as [Ho Hrep].
     cbn [run]. destruct (step grow s o) as [s1 out] eqn:Es.
     destruct (run grow s1 r) as [s2 tr] eqn:Er. cbn [snd judge].
-    destruct o as [ty fm fx qq | remote persist wire u | ].
+    destruct o as [ty fm fx qq | remote persist wire u | | | z].
     - (* Init *)
       simpl in Es. inversion Es; subst s1 out. subst fx. simpl.
       match type of Er with run grow ?s0 r = _ =>
@@ -809,6 +818,14 @@ Section RunProofs.
       cbn [strictly_accepted forallb fst].
       specialize (IH s1 {| m_n := m_n mm + outs_of out; m_store := sval (cur s1) |} HI1).
       rewrite Er in IH. apply IH; [congruence| |exact Hrep]. split; simpl; [lia|reflexivity].
+    - (* Keep *)
+      simpl in Es. inversion Es; subst s1 out. cbn [mon]. cbn.
+      match type of Er with run grow ?s0 r = _ =>
+        specialize (IH s0 {| m_n := S (m_n mm); m_store := m_store mm |} (Inv_keep s HI) Hfx) end.
+      rewrite Er in IH. apply IH; [|exact Hrep]. split; simpl; [rewrite app_length; simpl; lia | exact Hst].
+    - (* Ext *)
+      simpl in Es. inversion Es; subst s1 out. cbn [mon]. cbn.
+      specialize (IH s mm HI Hfx (conj Hn Hst) Hrep). rewrite Er in IH. exact IH.
   Qed.
 
   Lemma strictly_accepted_accepted j : strictly_accepted j = true -> accepted j = true.
@@ -834,10 +851,12 @@ Section RunProofs.
     cbn [run]. destruct (step grow s o) as [s1 out] eqn:Es.
     destruct (run grow s1 r) as [s2 tr] eqn:Er. cbn [fst].
     assert (H1 : Inv s1 /\ fixed s1 = true).
-    { destruct o as [ty fm fx qq | remote persist wire u | ].
+    { destruct o as [ty fm fx qq | remote persist wire u | | | z].
       - simpl in Es. inversion Es; subst s1 out. split; [split; [apply wf_mem0|apply Forall_nil]|exact Ho].
       - pose proof (step_update grow s remote persist wire u HI Hfx) as H. rewrite Es in H. tauto.
-      - pose proof (step_snapshot s HI) as H. rewrite Es in H. destruct H as [? [? _]]. split; congruence. }
+      - pose proof (step_snapshot s HI) as H. rewrite Es in H. destruct H as [? [? _]]. split; congruence.
+      - simpl in Es. inversion Es; subst s1 out. split; [apply Inv_keep; exact HI | exact Hfx].
+      - simpl in Es. inversion Es; subst s1 out. split; assumption. }
     destruct H1 as [HI1 Hfx1]. specialize (IH s1 HI1 Hfx1 Hrep). rewrite Er in IH. exact IH.
   Qed.
 
@@ -854,7 +873,7 @@ Section RunProofs.
   Lemma step_handed_prefix s o : Inv s -> fixed s = true -> (match o with Init _ _ _ _ => False | _ => True end) ->
     exists more, handed (fst (step grow s o)) = handed s ++ more.
   Proof.
-    intros [Hwf Hh] Hfx Hno. destruct o as [ | remote persist wire u | ]; [destruct Hno| |].
+    intros [Hwf Hh] Hfx Hno. destruct o as [ | remote persist wire u | | | z]; [destruct Hno| | | |].
     - unfold step. rewrite Hfx.
       destruct (exec (update_prog grow (sch s) (qk s) true remote persist (u_new u) (u_fp u) (u_fd u)) (cur s))
         as [[[[r parg] c] m'] l] eqn:E.
@@ -873,6 +892,8 @@ Section RunProofs.
       rewrite (check_changed_same m' (handed s) 0) by (eapply Forall_impl; [|exact Hh']; intros hv [_ H]; exact H).
       destruct (hand_outs_spec m' (snap_news c) (handed s)) as [S1 _].
       destruct (hand_outs m' (snap_news c) (handed s)) as [hs1 outs]. simpl in *. eexists. exact S1.
+    - simpl. eexists. reflexivity.
+    - simpl. exists []. rewrite app_nil_r. reflexivity.
   Qed.
 
   Definition no_init (ops : list op) : bool :=
@@ -892,8 +913,8 @@ Section RunProofs.
   Proof.
     induction ops as [|o r IH]; intros s HI Hfx Hn; [exists []; rewrite app_nil_r; reflexivity|].
     simpl in Hn. apply andb_true_iff in Hn. destruct Hn as [Ho Hn].
-    destruct (step_handed_prefix s o HI Hfx) as [m1 H1]; [destruct o; [discriminate|exact I|exact I]|].
-    assert (Hrep : repaired [o] = true) by (destruct o; [discriminate|reflexivity|reflexivity]).
+    destruct (step_handed_prefix s o HI Hfx) as [m1 H1]; [destruct o; [discriminate|exact I|exact I|exact I|exact I]|].
+    assert (Hrep : repaired [o] = true) by (destruct o; [discriminate|reflexivity|reflexivity|reflexivity|reflexivity]).
     destruct (run_inv [o] s HI Hfx Hrep) as [HI1 Hfx1].
     cbn [run] in *. destruct (step grow s o) as [s1 out]. simpl in *.
     destruct (IH s1 HI1 Hfx1 Hn) as [m2 H2].
@@ -946,12 +967,14 @@ Section RunProofs.
   Proof.
     intros HI Hfx k. pose proof HI as [Hwf Hh].
     assert (Hok : oks (narr (cur s)) (nobj (cur s)) true (cur s) (step_effects grow s o)).
-    { destruct o as [ | remote persist wire u | ].
+    { destruct o as [ | remote persist wire u | | | z].
       - simpl. exact I.
       - pose proof (step_update grow s remote persist wire u HI Hfx) as H.
         destruct (step grow s (Update remote persist wire u)) as [s1 out]. apply H.
       - pose proof (step_snapshot s HI) as H.
-        destruct (step grow s Snapshot) as [s1 out]. apply oks_weaken. apply H. }
+        destruct (step grow s Snapshot) as [s1 out]. apply oks_weaken. apply H.
+      - simpl. exact I.
+      - simpl. exact I. }
     rewrite <- (firstn_skipn k (step_effects grow s o)) in Hok.
     apply oks_app in Hok. destruct Hok as [Hok _].
     pose proof (handed_frame _ _ _ _ Hwf Hok Hh) as Hh'.
@@ -982,12 +1005,14 @@ Section RunProofs.
   Proof.
     intros HI Hfx e hv He Hhv. pose proof HI as [Hwf Hh].
     assert (Hok : oks (narr (cur s)) (nobj (cur s)) true (cur s) (step_effects grow s o)).
-    { destruct o as [ | remote persist wire u | ].
+    { destruct o as [ | remote persist wire u | | | z].
       - simpl. exact I.
       - pose proof (step_update grow s remote persist wire u HI Hfx) as H.
         destruct (step grow s (Update remote persist wire u)) as [s1 out]. apply H.
       - pose proof (step_snapshot s HI) as H.
-        destruct (step grow s Snapshot) as [s1 out]. apply oks_weaken. apply H. }
+        destruct (step grow s Snapshot) as [s1 out]. apply oks_weaken. apply H.
+      - simpl. exact I.
+      - simpl. exact I. }
     rewrite Forall_forall in Hh. destruct (Hh hv Hhv) as [Hc _].
     eapply oks_no_touch; eauto.
   Qed.
